@@ -29,7 +29,11 @@ def cases(tier, seed):
         ratio = r.choice([1, 2, 4, 8]) if bypass else 1
         dw = r.choice([8, 16, 32])
         depth_words = r.choice([4, 8, 8, 16, 32, 64, 16, 48, 24, 112 if tier == "thorough" else 48])
-        c = dict(bypass=bypass, ratio=ratio, dw=dw, depth_words=depth_words, base_words=r.choice([0, 16, 1000]),
+        if k % 4 == 3:
+            depth_words = r.choice([12, 24, 40, 6, 20])      # not a power of two
+        c = dict(bypass=bypass, ratio=ratio, dw=dw, depth_words=depth_words,
+                 # regions packed back to back (base a multiple of the depth) as well as arbitrary bases
+                 base_words=r.choice([0, 16, 1000, depth_words, 2 * depth_words, 3 * depth_words, 5 * depth_words]),
                  schedule=SCHEDULES[k % len(SCHEDULES)], factor=r.randint(5, 14) if tier == "quick" else r.randint(5, 50),
                  cmd_ready_prob=r.choice([1.0, 0.7, 0.4]), extra_lat=r.choice([(0, 0), (0, 8), (0, 30)]),
                  long_stall=r.choice([0, 0, 0.01]), pre=r.choice([16, 16, 4]), post=r.choice([16, 16, 4]), seed="C13/%d/%d" % (seed, k))
